@@ -161,6 +161,16 @@ func c04KindsBase() []c04Kind {
 		{id: "functype-params", kind: "decl", lit: map[string]string{"a": "int", "b": "p.T", "c": "[]bool"}, mvar: "x", meta: model.MetaVar{Name: "x", Kind: "expression"},
 			dots: "DOTS_%d", sep: ", ", open: "type F func(", close: ") error", openPlus: "type Mark func(", eol: ",", mark: "mark", markX: "*x", oneLine: true,
 			fileOpen: "package p\n\ntype F func(", fileEnd: ") error\n"},
+		// (type-parameter lists are not among the lists of the statement: gopatch refuses some patterns with elisions there)
+		{id: "method-params", kind: "decl", lit: map[string]string{"a": "a int", "b": "b string", "c": "c ...bool"}, mvar: "x int", meta: model.MetaVar{Name: "x", Kind: "identifier"},
+			dots: "_ DOTS_%d", sep: ", ", open: "func (r *T) m(", close: ") error {}", openPlus: "func (r *T) mark(", eol: ",", mark: "mark int", markX: "x mark", oneLine: true,
+			fileOpen: "package p\n\nfunc (r *T) m(", fileEnd: ") error {}\n"},
+		{id: "assign-rhs", kind: "stmts", lit: map[string]string{"a": "a", "b": "b.c", "c": "g(1)"}, mvar: "x", meta: model.MetaVar{Name: "x", Kind: "expression"},
+			dots: "DOTS_%d", sep: ", ", open: "v.w = ", close: "", openPlus: "v.w = mark, ", eol: ",", mark: "mark", markX: "mark[x]", oneLine: true, noCtx: true, minLen: 1,
+			fileOpen: "package p\n\nfunc _() {\n\tv.w = ", fileEnd: "\n}\n"},
+		{id: "stmts-comm", kind: "stmts", lit: map[string]string{"a": "a()", "b": "b.c = 1", "c": "return"}, mvar: "x()", meta: model.MetaVar{Name: "x", Kind: "identifier"},
+			dots: "DOTS_%d", sep: "; ", open: "select {\ncase <-ch:", close: "}", eol: "", mark: "mark()", markX: "mark(x)",
+			fileOpen: "package p\n\nfunc _() {\n\tselect {\n\tcase <-ch:\n", fileEnd: "\n\t}\n}\n"},
 		// the statement list itself is the pattern (implicit elisions at both ends, explicit ones inside): it is
 		// matched against the whole body, no statement before or after
 		{id: "stmts-top", kind: "stmts", lit: map[string]string{"a": "a()", "b": "b.c = 1", "c": "if g(1) { a() }"}, mvar: "x()", meta: model.MetaVar{Name: "x", Kind: "identifier"},
@@ -226,15 +236,19 @@ func c04Gen(tier string, emit func(any)) {
 	lists := c04Lists(ll)
 	for ki, k := range c04Kinds() {
 		kpats := pats
+		klists := lists
 		if ki >= 10 && tier != "thorough" {
-			kpats = c04Patterns(pl - 1) // the six later list kinds run one pattern length lower in the quick tier
+			kpats = c04Patterns(pl - 1) // the later list kinds run one pattern length lower in the quick tier
+		}
+		if tier != "thorough" && contains([]string{"results-named", "funclit-results-named", "funclit-results", "functype-params", "method-params", "assign-rhs", "stmts-comm"}, k.id) {
+			klists = c04Lists(ll - 1) // ... and the latest ones also one list length lower
 		}
 		for _, pat := range kpats {
 			if k.id == "stmts-top" && (pat[0] == "D" || pat[len(pat)-1] == "D") {
 				continue // an explicit elision next to the implicit one of a statement-list pattern
 			}
 			for _, ch := range c04Changes(k, pat) {
-				for _, l := range lists {
+				for _, l := range klists {
 					if len(l) < k.minLen {
 						continue
 					}
